@@ -3,6 +3,7 @@ import OpusModel.EncSkel.Repack
 import OpusModel.EncSkel.Frame
 import OpusModel.EncSkel.Native
 import OpusModel.EncSkel.Cvbr
+import OpusModel.EncSkel.MsRate
 /-
   OpusModel.EncSkel — the encoder size / packet skeleton shared by properties C02 and C05
   (see the headers of the four sub-modules).
